@@ -134,7 +134,7 @@ verif_harness! {
         Some(ra::inv_mix_columns(&ra::xor(&x, &k)) == ra::xor(&ra::inv_mix_columns(&x), &ra::inv_mix_columns(&k)))
     }
 }
-//@ harness name=fips_mc_inverse prop=C02,C17 tier=quick bits=268 est=80 desc="oracle lemma, FIPS MixColumns M and InvMixColumns I are mutual inverses: (a) M(x^y) == M(x)^M(y) and I(x^y) == I(x)^I(y) for all 2^128 x 2^128 pairs, (b) I(M(e)) == e and M(I(e)) == e for every state e with a single non-zero byte (position and value symbolic); every state is the XOR of its 16 single-byte components, so (a)+(b) give I o M == M o I == id (the direct composition query is a wide-parity equivalence that does not finish)"
+//@ harness name=fips_mc_inverse prop=C02,C17 tier=quick bits=268 est=60 desc="oracle lemma, FIPS MixColumns M and InvMixColumns I are mutual inverses: (a) M(x^y) == M(x)^M(y) and I(x^y) == I(x)^I(y) for all 2^128 x 2^128 pairs, (b) I(M(e)) == e and M(I(e)) == e for every state e with a single non-zero byte (position and value symbolic); every state is the XOR of its 16 single-byte components, so (a)+(b) give I o M == M o I == id (the direct composition query is a wide-parity equivalence that does not finish)"
 verif_harness! {
     name: fips_mc_inverse,
     bytes: 34,
